@@ -1771,9 +1771,9 @@ class op(exp):
         r = self.r.simplify(**kargs)
         if self.prop < 4 and self.op.symbol not in (OP_DIV, OP_MOD):
             if l._is_top:
-                return l
+                return l if l.size == self.size else top(self.size)
             if r._is_top:
-                return r
+                return r if r.size == self.size else top(self.size)
             minus = self.op.symbol == OP_MIN
             # arithm/logic normalisation:
             # push cst to the right
